@@ -46,6 +46,7 @@ func init() {
 			fs.Tri(n, Unknown, "sdk/go/hydraidego/client/client.go")
 		}
 		c20Routing(fs)
+		c20Glue(fs)
 
 		srv, err1 := Load(srvPath)
 		sdk, err2 := Load(sdkPath)
@@ -68,7 +69,7 @@ func init() {
 		}
 		// ---- per-object island cache: `if n.<field> != 0 { return n.<field> }` ignores the argument
 		cacheOf := func(f *File, method, field string) Tri {
-			fd := f.Func("name", method)
+			fd := miscFunc(f, "name", method)
 			if fd == nil || fd.Body == nil {
 				return Unknown
 			}
@@ -95,13 +96,16 @@ func init() {
 			fs.Tri("islandCacheKeyedByN", Yes, srvPath)
 		}
 		// ---- memoised path: `if n.HashPath != "" { return n.HashPath }` ignores the arguments
-		if fd := srv.Func("name", "GetFullHashPath"); fd != nil && fd.Body != nil {
+		if fd := miscFunc(srv, "name", "GetFullHashPath"); fd != nil && fd.Body != nil {
 			for _, st := range fd.Body.List {
 				if is, ok := st.(*ast.IfStmt); ok && strings.Contains(srv.Str(is.Cond), `n.HashPath != ""`) && len(is.Body.List) == 1 && srv.Str(is.Body.List[0]) == "return n.HashPath" {
 					switch {
 					case srv.Str(is.Cond) == `n.HashPath != ""`:
 						fs.Tri("pathCacheKeyedByArgs", No, srvPath+":"+itoa(srv.Line(is)))
 					case srv.Str(is.Cond) == `n.HashPath != "" && n.hashPathFor == key` && srv.Contains(fd, `key := fmt.Sprintf("%s|%d|%d|%d", rootPath, islandID, depth, maxFoldersPerLevel)`) && srv.Contains(fd, "n.hashPathFor = key"):
+						fs.Tri("pathCacheKeyedByArgs", Yes, srvPath+":"+itoa(srv.Line(is)))
+					case srv.Str(is.Cond) == `n.HashPath != "" && n.hashPathRoot == rootPath && n.hashPathIsland == islandID && n.hashPathDepth == depth && n.hashPathPer == maxFoldersPerLevel` &&
+						srv.Contains(fd, "n.hashPathRoot, n.hashPathIsland, n.hashPathDepth, n.hashPathPer = rootPath, islandID, depth, maxFoldersPerLevel"):
 						fs.Tri("pathCacheKeyedByArgs", Yes, srvPath+":"+itoa(srv.Line(is)))
 					}
 				}
@@ -168,7 +172,7 @@ func c20Routing(fs *Facts) {
 		fs.Err("%v", err)
 		return
 	}
-	conn := f.Func("client", "Connect")
+	conn := miscFunc(f, "client", "Connect")
 	if conn == nil || conn.Body == nil {
 		return
 	}
@@ -190,10 +194,10 @@ func c20Routing(fs *Facts) {
 	}
 	look := true
 	for _, m := range []string{"GetServiceClient", "GetServiceClientAndHost"} {
-		fd := f.Func("client", m)
+		fd := miscFunc(f, "client", m)
 		if fd == nil || !f.Contains(fd, "folderNumber := swampName.GetIslandID(c.allIslands)") ||
 			!f.Contains(fd, "if serviceClient, ok := c.serviceClients[folderNumber]; ok {") ||
-			!(f.Contains(fd, "return nil") || f.Contains(fd, "unroutable{island: folderNumber}")) {
+			!(f.Contains(fd, "return nil") || f.Contains(fd, "unroutable{") || f.Contains(fd, "return unrouted")) {
 			look = false
 		}
 	}
@@ -202,12 +206,13 @@ func c20Routing(fs *Facts) {
 	if look {
 		nils, errs := 0, 0
 		for _, m := range []string{"GetServiceClient", "GetServiceClientAndHost"} {
-			fd := f.Func("client", m)
+			fd := miscFunc(f, "client", m)
 			last := fd.Body.List[len(fd.Body.List)-1]
 			switch {
 			case f.Str(last) == "return nil":
 				nils++
-			case strings.Contains(f.Str(last), "unroutable{") && f.Func("unroutable", "Invoke") != nil && f.Contains(f.Func("unroutable", "Invoke"), "status.Errorf(codes.Unavailable"):
+			case (strings.Contains(f.Str(last), "unroutable{") || f.Str(last) == "return unrouted" || f.Str(last) == "return unrouted.GrpcClient") &&
+				f.Func("unroutable", "Invoke") != nil && f.Contains(f.Func("unroutable", "Invoke"), "status.Errorf(codes.Unavailable"):
 				errs++
 			}
 		}
@@ -234,7 +239,7 @@ func c20Routing(fs *Facts) {
 // c20Island inspects `n.<field> = <expr>` in the island method.
 // returns plusOne, modHashByN, width (0 unknown), hashConcat, line
 func c20Island(f *File, method, field string) (Tri, Tri, int, Tri, int) {
-	fd := f.Func("name", method)
+	fd := miscFunc(f, "name", method)
 	if fd == nil || fd.Body == nil || fd.Type.Params == nil || len(fd.Type.Params.List) != 1 || len(fd.Type.Params.List[0].Names) != 1 {
 		return Unknown, Unknown, 0, Unknown, 0
 	}
@@ -297,9 +302,9 @@ func c20Island(f *File, method, field string) (Tri, Tri, int, Tri, int) {
 }
 
 func c20Path(fs *Facts, f *File, path string) {
-	fd := f.Func("", "generateHashedDirectoryPath")
+	fd := miscFunc(f, "", "generateHashedDirectoryPath")
 	fn := f.Func("", "generateSwampFolderName")
-	full := f.Func("name", "GetFullHashPath")
+	full := miscFunc(f, "name", "GetFullHashPath")
 	if fd == nil || fn == nil || full == nil || fd.Body == nil {
 		return
 	}
@@ -383,7 +388,7 @@ func c20Path(fs *Facts, f *File, path string) {
 }
 
 func c20Load(f *File) Tri {
-	fd := f.Func("", "Load")
+	fd := miscFunc(f, "", "Load")
 	if fd == nil || fd.Body == nil {
 		return Unknown
 	}
